@@ -603,6 +603,12 @@ class Gen:
             if body[3][0] == 'seq':
                 body[3] = ['bi', 'sum', body[3]]
             return ['let', fname, ['call', base, holes], body]
+        if not self.scope_only and r.random() < 0.02:
+            # a function item called with one argument too many or too few: a type error, never a value
+            self.features.add('wrong-arity-call')
+            ft = ftype(['I'] * r.choice([1, 1, 2]), 'I')
+            n = len(ft[1]) + r.choice([-1, 1])
+            return ['call', self.gen_inline(ft, env, d - 1), [self.gen_I(env, 0) for _ in range(n)]]
         if k == 0:
             return ['int', r.randint(-3, 9)]
         if k == 1 and vs:
@@ -882,6 +888,12 @@ class Gen:
         k = r.randrange(10)
         if self.scope_only and k in (3, 4):
             k = 9
+        if d > 0 and not self.scope_only and r.random() < 0.08:
+            # the function is the result of a call: head/tail over a sequence of function items
+            self.features.add('function-returned-by-call')
+            f1, f2 = self.gen_F(ft, env, d - 1), self.gen_F(ft, env, 0)
+            return r.choice([['bi', 'head', ['seq', f1, f2]], ['bi', 'tail', ['seq', f2, f1]],
+                             ['bi', 'head', ['bi', 'reverse', ['seq', f2, f1]]]])
         if vs and k < 3:
             return ['var', r.choice(vs)]
         if d > 0 and k == 3 and not self.no_partial:
